@@ -455,6 +455,8 @@ def match_known(known, pid, obname, failed_names, digest):
 def check_property(pid, obligations, tier, jobs, only=None, keep_work=False, seed=0):
     t0 = time.time()
     obs = [o for o in obligations if pid in o["props"] and (tier == "thorough" or o.get("tier", "quick") == "quick")]
+    if pid == "C12" and tier != "thorough":
+        obs = [o for o in obs if o.get("c12_tier", "quick") == "quick"]
     if only:
         obs = [o for o in obs if any(x in o["name"] for x in only)]
     if tier == "thorough":
